@@ -53,6 +53,7 @@ type GenesisKnobs struct {
 	Eth1Share        int  // percent with ETH1 credentials
 	AboveShare       int  // percent with balance above max
 	BelowShare       int  // percent below max (inactive at genesis)
+	ExactActive      int  // exactly this many validators at/above the maximum (active at genesis); a few inactive ones on top
 }
 
 func addrOf(k KeyNum) (a common.Eth1Address) {
@@ -68,6 +69,9 @@ func MakeGenesisPlan(r *hx.Rng, sp *common.Spec, k GenesisKnobs) *GenesisPlan {
 	n := k.MinVals + r.Intn(k.MaxVals-k.MinVals+1)
 	if n < int(sp.SLOTS_PER_EPOCH) {
 		n = int(sp.SLOTS_PER_EPOCH)
+	}
+	if k.ExactActive > 0 {
+		n = k.ExactActive + r.Intn(4)
 	}
 	p := &GenesisPlan{ViaEth1: r.Chance(50)}
 	copy(p.Eth1Hash[:], r.Bytes(32))
@@ -89,10 +93,22 @@ func MakeGenesisPlan(r *hx.Rng, sp *common.Spec, k GenesisKnobs) *GenesisPlan {
 				v.Balance = sp.MAX_EFFECTIVE_BALANCE - common.Gwei(1+r.Intn(16000))*inc/1000
 			}
 		}
+		if k.ExactActive > 0 {
+			if i < k.ExactActive {
+				if v.Balance < sp.MAX_EFFECTIVE_BALANCE {
+					v.Balance = sp.MAX_EFFECTIVE_BALANCE
+				}
+			} else {
+				v.Balance = sp.MAX_EFFECTIVE_BALANCE - common.Gwei(1+r.Intn(8))*inc
+			}
+		}
 		if v.Balance >= sp.MAX_EFFECTIVE_BALANCE {
 			nFull++
 		}
 		p.Vals = append(p.Vals, v)
+	}
+	if k.ExactActive > 0 {
+		return p
 	}
 	// enough active validators: at least max(SLOTS_PER_EPOCH, 3/4 n)
 	need := int(sp.SLOTS_PER_EPOCH)
